@@ -456,7 +456,10 @@ def rule_iteration(chk):
         leaf_b = EM.instance(it, EQ, 'Group', has_subgroups=False, equations=[eqn('eq2')])
         top = EM.instance(it, EQ, 'Group', has_subgroups=True, equations=[leaf_a, leaf_b], max_iterations=7, min_iterations=2)
         flat = EM.instance(it, EQ, 'Group', has_subgroups=False, equations=[eqn('eq0'), eqn('eq1')], max_iterations=7, min_iterations=2)
-        for label, g, nconv in (('flat', flat, 2), ('nested', top, 3)):
+        # a group iterated without a minimum (the default, 0): the limits are variables of compute() shared by all iterated groups, so every group sets both of them
+        nomin = EM.instance(it, EQ, 'Group', has_subgroups=False, equations=[eqn('eq0'), eqn('eq1')], max_iterations=3, min_iterations=0)
+        LIMITS = {'flat': ('7', '2'), 'nested': ('7', '2'), 'no-minimum': ('3', '0')}
+        for label, g, nconv in (('flat', flat, 2), ('nested', top, 3), ('no-minimum', nomin, 2)):
             conv_text = EM.call(it, g, 'get_converged_condition')
             init = EM.call(it, helper, 'get_iteration_init', g)
             check = EM.call(it, helper, 'get_iteration_check', g)
@@ -486,9 +489,10 @@ def rule_iteration(chk):
             pre = dict((U(st.targets[0]), st.value) for st in t.body if isinstance(st, ast.Assign) and len(st.targets) == 1)
             wh = [st for st in t.body if isinstance(st, ast.While)]
             okl = len(wh) == 1 and t.body[-1] is wh[0] and N.same(wh[0].test, 'True') and not wh[0].orelse and \
-                N.same(pre.get('max_iterations'), '7') and N.same(pre.get('min_iterations'), '2') and N.same(pre.get('_iteration_count'), '1')
+                pre.get('max_iterations') is not None and pre.get('min_iterations') is not None and \
+                N.same(pre.get('max_iterations'), LIMITS[label][0]) and N.same(pre.get('min_iterations'), LIMITS[label][1]) and N.same(pre.get('_iteration_count'), '1')
             chk.decide(okl, 'iteration', 'init:' + label, node=ii, file=AH, func='get_iteration_init',
-                       detail_bad='iteration preamble for (max 7, min 2) is %r: expected max_iterations = 7, min_iterations = 2, _iteration_count = 1, while True:' % init,
+                       detail_bad='iteration preamble for (max %s, min %s) is %r: expected max_iterations and min_iterations set to these (the variables are shared by all iterated groups of compute(): a group that does not set its minimum inherits that of the group before), _iteration_count = 1, while True:' % (LIMITS[label] + (init,)),
                        detail_ok='limits from the group; count starts at 1; while True')
             if not wh:
                 continue
